@@ -342,4 +342,35 @@ def fromPhiInb (het : String) (force : Bool) (ns : List Nat) (grids : List (Arra
         else
           .ok (f, (grids.getD 0 #[]).getD 1 0, sampleFast (inbOpsFast het ns grids Fs ploidys) T)
 
+/-! ### `Spectrum.marginalize` (populations summed out of a sampled spectrum) -/
+
+/-- `output.sum(axis=a)` pointwise; n = length of axis a -/
+def sumAxisFn (n a : Nat) (f : List Nat → Rat) : List Nat → Rat :=
+  fun idx => sumRange n fun i => f (idx.insertIdx a i)
+
+/-- `output.sum(axis=a)` -/
+def sumAxis (T : ND) (a : Nat) : ND :=
+  ND.ofFn (T.shape.eraseIdx a) (sumAxisFn (T.shape.getD a 0) a T.get)
+
+/-- `for axis in <order>: output = output.sum(axis=axis)` — every axis number refers to the array left by the previous sums;
+    numpy refuses an axis ≥ ndim -/
+def margLoop : List Nat → ND → Except String ND
+  | [], T => .ok T
+  | a :: as, T => if a < T.shape.length then margLoop as (sumAxis T a) else .error "AxisError"
+
+/-- `for axis in <order>: del pop_ids[axis]` on the list of population positions -/
+def delLoop : List Nat → List Nat → Except String (List Nat)
+  | [], ids => .ok ids
+  | a :: as, ids => if a < ids.length then delLoop as (ids.eraseIdx a) else .error "IndexError"
+
+/-- `Spectrum.marginalize(over)` of an unfolded spectrum: (original positions of the populations left, data); the two
+    iteration orders are the generated ones -/
+def marginalize (over : List Nat) (T : ND) : Except String (List Nat × ND) :=
+  match margLoop (margSumOrder over) T with
+  | .error e => .error e
+  | .ok R =>
+    match delLoop (margIdsOrder over) (List.range T.shape.length) with
+    | .error e => .error e
+    | .ok ids => .ok (ids, R)
+
 end DadiVerif.FromPhi
